@@ -971,7 +971,12 @@ class Models:
         @meth(int, "bit_length")
         def _bit_length(interp, x):
             if is_sym(x):
-                raise Unsupported("bit_length of symbolic int")
+                # number of bits of |x| as a chain of comparisons against the powers of two (|x| < 2**120 by A1)
+                a = ite(compare("<", x, 0), binop("-", 0, x), x)
+                r = 120
+                for k in range(119, -1, -1):
+                    r = ite(compare("<", a, 1 << k), k, r)
+                return r
             return int(x).bit_length()
 
         @meth(int, "to_bytes")
